@@ -1,4 +1,5 @@
 """C05 - MATLAB call-site ids and the MEX dispatch table always agree (Engine I)."""
+from .. import rules_flow as RF
 from .. import rules_ids as RI
 from .. import rules_matlab as RM
 
@@ -35,3 +36,4 @@ def run(ctx, rep):
     rep.run(RI.rule_roles, ctx, rep, "I6")
     # I3 (consumer side): all overloads of a name share one .m file, so no id loses its call site by overwriting
     rep.run(RM.rule_group_by_name, ctx, rep, "I3")
+    rep.run(RF.rule_locals_defined, ctx, rep, "U1", packages=("gtwrap/matlab_wrapper",), min_functions=3)
